@@ -146,6 +146,7 @@ def rule_struct(ctx):
     adts = {(c.name, a["path"]): a for c in F.crates.values() for a in c.adts}
     # index generated fns by the ADT they belong to
     ser_fns, de_fns = {}, {}
+    ident_fns = {}      # (crate, type) -> {visitor path: {"visit_u64": fn, "visit_str": fn}}  (the generated identifier visitors)
     for fn in F.all_fns():
         d = fn["d"]
         t = d.get("trait") or ""
@@ -155,6 +156,10 @@ def rule_struct(ctx):
             m = re.search(r"impl serde::Deserialize<'de> for ([\w:]+)", d.get("self_ty", "") + " " + d["path"])
             if m:
                 de_fns.setdefault((d["krate"], m.group(1)), {})[d["name"]] = fn
+        elif t.endswith("Visitor") and d["name"] in ("visit_u64", "visit_str"):
+            m = re.search(r"impl serde::Deserialize<'de> for ([\w:]+)", d.get("self_ty", "") + " " + d["path"])
+            if m:
+                ident_fns.setdefault((d["krate"], m.group(1)), {}).setdefault(d["path"].rsplit("::", 1)[0], {})[d["name"]] = fn
     for (crate, path), d in sorted(impls.items()):
         if "ser" not in d:
             continue
@@ -180,6 +185,7 @@ def rule_struct(ctx):
         # --- what is written
         written = {}      # key string -> source field
         variants_written = set()
+        variant_index = {}
         flags = []
         for n in walk(sf["body"]):
             name, dd = callee_name(c, n)
@@ -195,6 +201,12 @@ def rule_struct(ctx):
                 written["0"] = self_field(args[2]) if len(args) > 2 else None
             elif name in ("serialize_unit_variant", "serialize_newtype_variant", "serialize_tuple_variant", "serialize_struct_variant"):
                 variants_written.add(lit_str(args[3]) if len(args) > 3 else None)
+                ix = peel_refs(args[2]) if len(args) > 3 else {}
+                if ix.get("k") == "Lit" and lit_str(args[3]) is not None:
+                    try:
+                        variant_index[lit_str(args[3])] = int(re.sub(r"[^0-9]", "", str(ix.get("v")).split("u")[0].split("_")[0]))
+                    except ValueError:
+                        pass
             elif name in ("skip_field",):
                 flags.append("conditionally skipped field (`skip_serializing_if`)")
             elif name in ("serialize_map", "serialize_entry", "collect_map", "collect_seq", "collect_str"):
@@ -272,6 +284,47 @@ def rule_struct(ctx):
                     res.ok()
                     res.sample({"field": fi, "type": f["ty"], "written_as": f["name"]})
         elif a["kind"] == "enum":
+            # the index a variant is written under (non-self-describing formats transmit only this number) is the index
+            # the generated identifier visitor maps back to the same variant
+            vnames = set(v["name"] for v in a["variants"])
+
+            def arm_field(body):
+                for y in walk(body):
+                    if y.get("k") == "Path" and "def" in y:
+                        nm_ = (c.dfn(y["def"]) or {}).get("name") or ""
+                        if nm_.startswith("__field") or nm_ == "__ignore":
+                            return nm_
+                return None
+            for vpath, pair in sorted(ident_fns.get((crate, path), {}).items()):
+                if "visit_u64" not in pair or "visit_str" not in pair:
+                    continue
+                by_name, by_index = {}, {}
+                for which, tgt in (("visit_str", by_name), ("visit_u64", by_index)):
+                    for y in walk(pair[which]["body"]):
+                        if y.get("k") == "Match" and y.get("src", "Normal") == "Normal":
+                            for arm in y["arms"]:
+                                q = arm["pat"]
+                                while q.get("k") == "Ref":
+                                    q = q.get("pat")
+                                if q.get("k") == "Lit" and q.get("v") is not None:
+                                    fld = arm_field(arm["body"])
+                                    if fld:
+                                        key_ = str(q["v"]).strip('"') if which == "visit_str" else re.sub(r"[^0-9]", "", str(q["v"]).split("u")[0])
+                                        tgt[key_] = fld
+                if not by_name or not set(by_name) <= vnames:
+                    continue
+                res.instance("%s : variant indices written = indices read" % inst)
+                bad_ix = []
+                for vn, ix in sorted(variant_index.items()):
+                    fld = by_name.get(vn)
+                    rd = [int(i_) for i_, f_ in by_index.items() if f_ == fld and i_ != ""]
+                    if fld is not None and rd and ix not in rd:
+                        bad_ix.append((vn, ix, rd[0]))
+                if bad_ix:
+                    vn, ix, rd = bad_ix[0]
+                    res.violate("%s : variant-index-mismatch:%s" % (inst, vn), "%s: variant `%s` is written under index %d but the generated identifier visitor reads it back under index %d (a skipped variant shifts the numbering on one side only): in a format that transmits the index (bincode) %d variant(s) restore as another variant or fail" % (inst, vn, ix, rd, len(bad_ix)), loc)
+                else:
+                    res.ok()
             for v in a["variants"]:
                 vi = "%s::%s" % (inst, v["name"])
                 res.instance(vi)
@@ -555,7 +608,52 @@ def rule_guard(ctx):
             res.ok()
         else:
             res.violate("%s : restored-params-not-rejected" % key, "a parameter set restored without its tokenizer function (guard raised, function None) passes validation and refits with the default regex instead of returning TokenizerNotSet", fn_loc(f))
-    return res.finish(6)
+    # ... the *checked* parameter set is serialisable too, and its fit methods are public: a restored
+    # CountVectorizerValidParams never passes through check_ref again, so every public method of it that tokenises has
+    # to look at the guard itself
+    uses2 = set()
+    for f in fns:
+        if not (f["d"].get("self_adt") or "").endswith("CountVectorizerValidParams"):
+            continue
+        only_tested = set(id(peel_refs(y["recv"])) for y in walk(f["body"]) if y.get("k") == "MethodCall" and y["name"] in ("is_none", "is_some"))
+        for n_ in walk(f["body"]):
+            if n_.get("k") == "MethodCall" and n_["name"] == "tokenizer_function" and peel_refs(n_["recv"]).get("name") == "self" and id(n_) not in only_tested:
+                uses2.add(f["d"].get("raw"))
+            if n_.get("k") == "Field" and n_["name"] == "tokenizer_function" and peel_refs(n_["e"]).get("name") == "self" and f["d"]["name"] not in ("tokenizer_function", "clone", "eq", "fmt"):
+                uses2.add(f["d"].get("raw"))
+    uses2 = set(r_ for r_ in uses2 if by_raw.get(r_) is not None and by_raw[r_]["d"]["name"] != "tokenizer_function")
+    reach2 = set(uses2)
+    changed = True
+    while changed:
+        changed = False
+        for f in fns:
+            r_ = f["d"].get("raw")
+            if r_ not in reach2 and (f["d"].get("self_adt") or "").endswith("CountVectorizerValidParams") and callees(f) & reach2:
+                reach2.add(r_)
+                changed = True
+    n_vp = 0
+    for f in fns:
+        d = f["d"]
+        if not (d.get("self_adt") or "").endswith("CountVectorizerValidParams") or f["vis"] != "pub" or d.get("trait") or d.get("raw") not in reach2 or f.get("exp"):
+            continue
+        n_vp += 1
+        key = fn_key(f)
+        res.instance("%s : restored checked parameters without their tokenizer function are rejected" % key)
+        tok_names = set(by_raw[r_]["d"]["name"] for r_ in reach2 if by_raw.get(r_) is not None)
+        tr = Tracer(f, inline=ctx.inliner(keep=tuple(sorted(tok_names)), cfg="serde")).run()
+        errs = [e for e in tr.events if e.kind == "call" and e.name == "Err" and e.args and as_term(e.args[0]) is not None and as_term(e.args[0]).op.endswith("TokenizerNotSet")
+                and any("tokenizer_deserialization_guard" in g[1] for g in e.guards) and any("tokenizer_function" in g[1] for g in e.guards)]
+        toks = [e for e in tr.events if e.kind == "call" and e.name in tok_names and e.name != d["name"]]
+        tested_ids = set(id(peel_refs(y["recv"])) for g_ in fns for y in walk(g_["body"]) if y.get("k") == "MethodCall" and y["name"] in ("is_none", "is_some"))
+        direct = [e for e in tr.events if e.kind == "call" and e.name == "tokenizer_function" and id(e.node) not in tested_ids]
+        first_tok = min([e.order for e in toks + direct] or [None]) if (toks or direct) else None
+        if errs and (first_tok is None or min(e.order for e in errs) < first_tok):
+            res.ok()
+        else:
+            res.violate("%s : restored-valid-params-not-rejected" % key, "`%s` tokenises without looking at `tokenizer_deserialization_guard`: a checked parameter set restored without its tokenizer function (guard raised, function None) refits silently with the default regex and learns another vocabulary" % d["name"], fn_loc(f))
+    if n_vp < 2:
+        res.missing_anchor("the public tokenising methods of CountVectorizerValidParams (fit, fit_files; found %d)" % n_vp)
+    return res.finish(8)
 
 
 def _inliner_takes_cfg(ctx):
